@@ -55,7 +55,7 @@ def run_mpi(exe, scenario, nranks, tag, timeout=60, threads=1):
 TAGS = {0: "Pending", 1: "Work", 2: "Finish"}
 
 
-def dispatcher_trace(run, J, R):
+def dispatcher_trace(run, J, R, boss=True):
     """Filter each rank's log to the events DispatcherTrace.tla consumes (selection by kind only)."""
     lines = []
     for k, evs in enumerate(run.logs):
@@ -78,7 +78,7 @@ def dispatcher_trace(run, J, R):
                 out.append(["Run", e["job"]])
             elif t == "RoundEnd":
                 out.append(["RoundEnd", e["map"]])
-        lines.append({"rank": k, "J": J, "R": R, "ev": out})
+        lines.append({"rank": k, "J": J, "R": R, "boss": bool(boss), "ev": out})
     return lines
 
 
